@@ -103,6 +103,21 @@ pub trait Configuration: Clone + Send + Sync + 'static {
 
     /// Returns the representation of the empty label
     fn empty_label() -> NodeLabel;
+
+    /// Verification hook (only with `--cfg facebook_akd_verif`): lets a model configuration
+    /// replace the VRF check of `verify::base::verify_label` by an ideal VRF. The shipped
+    /// configurations keep the default (`None`), i.e. the real ECVRF verification.
+    #[cfg(facebook_akd_verif)]
+    fn verif_verify_label(
+        _vrf_public_key: &[u8],
+        _akd_label: &AkdLabel,
+        _freshness: VersionFreshness,
+        _version: u64,
+        _vrf_proof: &[u8],
+        _node_label: NodeLabel,
+    ) -> Option<Result<(), crate::verify::VerificationError>> {
+        None
+    }
 }
 
 /// For fixture generation / testing purposes only
